@@ -101,9 +101,27 @@ class DtdParser:
             name=attribute.name,
             type=DtdAttributeType(attribute.type),
             default=DtdAttributeDefault(attribute.default),
-            default_value=attribute.default_value,
+            default_value=cls.build_default_value(attribute.default_value),
             values=attribute.values(),
         )
+
+    @classmethod
+    def build_default_value(cls, value: str | None) -> str | None:
+        """Return the declared default value of an attribute.
+
+        The libxml2 dtd parser keeps every ampersand of a default
+        value as the character reference `&#38;`.
+
+        Args:
+            value: The default value as reported by lxml
+
+        Returns:
+            The default value with the ampersands restored or None.
+        """
+        if value is None:
+            return None
+
+        return value.replace("&#38;", "&")
 
     @classmethod
     def build_ns_map(cls, prefix: str, attributes: list[DtdAttribute]) -> dict:
